@@ -4,5 +4,7 @@
 //! production functions); it contains no logic of its own that the production build uses.
 pub mod alloc;
 pub mod sched;
+pub mod sched_c15;
 pub mod server;
 pub mod worker;
+pub mod worker2;
